@@ -440,7 +440,7 @@ func main() {
 	if vcommon.Thorough() {
 		depth = 5
 	}
-	root := fmt.Sprintf("/dev/shm/verif-wal-%d", os.Getpid())
+	root := vcommon.ShmDir("wal")
 	if _, err := os.Stat("/dev/shm"); err != nil {
 		root = filepath.Join(vcommon.Dir(), ".work", fmt.Sprintf("wal-%d", os.Getpid()))
 	}
